@@ -139,7 +139,10 @@ theorem getView_vt (h : Heap) (o : Nat) (vt : VT) : (h.getView o vt).1.objVt (h.
   · assumption
   · split
     · split
-      · assumption
+      · rename_i hc
+        rcases hc with hc | hc
+        · exact absurd hc (by decide)
+        · exact hc
       · exact stack_vt h o vt
     · exact stack_vt h o vt
 
